@@ -24,6 +24,12 @@ Theorem C24_ldef_counted_is_needed : forall f, ldef_counted f = ldef_needed f.
 Proof. exact ldef_counted_is_needed. Qed.
 Print Assumptions C24_ldef_counted_is_needed.
 
+(* before its repair (fix: commit, see KNOWN_FINDINGS.txt) the compiler under-counted a ternary dependency
+   whose true branch introduces more local definitions than its false branch: kept as a witness *)
+Theorem C24_ternary_ldef_counting_refuted : exists f, ldef_counted_old f < ldef_needed f.
+Proof. exact ternary_ldef_counting_refuted. Qed.
+Print Assumptions C24_ternary_ldef_counting_refuted.
+
 (* the pinned tree (before the repair commit) violated the property: kept as a witness *)
 Theorem C24_prefix_counting_refuted : exists p, accept false p = true /\ ~ within_limits p.
 Proof. exact prefix_counting_refuted. Qed.
